@@ -25,6 +25,15 @@ func (c *Ctx) Want(fn *gf.Fn, pos token.Pos, tmpl string, args ...ast.Expr) *gf.
 	return c.E.Canon.Formula(info, e)
 }
 
+// TryWantTerm is WantTerm without recording a checker failure when the
+// template does not type-check at pos (e.g. a variable not yet in scope).
+func (c *Ctx) TryWantTerm(fn *gf.Fn, pos token.Pos, tmpl string, args ...ast.Expr) *gf.Term {
+	n := len(c.Fatal)
+	t := c.WantTerm(fn, pos, tmpl, args...)
+	c.Fatal = c.Fatal[:n]
+	return t
+}
+
 // WantTerm is Want for a non-boolean expression.
 func (c *Ctx) WantTerm(fn *gf.Fn, pos token.Pos, tmpl string, args ...ast.Expr) *gf.Term {
 	e, info := c.typedExpr(fn, pos, tmpl, args...)
